@@ -671,7 +671,8 @@ pub fn run(p: &Params) -> Report {
         Op::LoadImm(0), Op::StoreImm(0), Op::VEmpty, Op::VPush, Op::BEmpty, Op::Eql,
     ];
     let a = alphabet.len();
-    let maxlen = 4;
+    // under Miri (thorough tier's interpreter stage, ~10^4 x slower) the enumeration stops at length 2
+    let maxlen = if cfg!(miri) { 2 } else { 4 };
     let mut count = 0u64;
     for len in 1..=maxlen {
         let total = (a as u64).pow(len as u32);
